@@ -156,6 +156,13 @@ def extra_check(script, meta, a, m):
     return out
 
 
+def pre_run(ctx):
+    # tie of coq/SummQ.v (the model Properties_C02.v is about): every stored SUMMARY entry of every level and every
+    # answered statistics request is compared with the extracted sq_levels / sq_rd_statistics
+    import C02_summ
+    C02_summ.run_summ(ctx, build=False, gap_clause=False)
+
+
 def run(ctx):
     # `st` ops are compared by extra_check (tolerance), not by string equality
     saved = proglib.OP_CLASS.get("st")
@@ -170,7 +177,7 @@ def run(ctx):
             "every level; starts at 0, 1, d-1, block and summary-chunk boundaries +-1, end-aligned, random; oracle (extracted Spec.stats_windows, exact integer sums): "
             "single window: min/max exact, mean within stored-summary precision, sqrt((d-1)/d) S <= std <= S; multi-window: mean/min/max of each entry within the "
             "extremes of its window widened by one increment, average of means = exact mean of the range; distinct = script",
-            extra_check=extra_check, timeout=60)
+            extra_check=extra_check, timeout=60, pre_run=pre_run)
     finally:
         proglib.OP_CLASS["st"] = saved
 
